@@ -28,6 +28,8 @@ package handshake
 //@   ensures [error-means-no-token] implies(result1 != nil, result0 == nil)
 //@   ensures [retry-fields-only-for-retry] implies(result0 != nil && !result0.IsRetryToken, result0.OriginalDestConnectionID.l == 0 && result0.RetrySrcConnectionID.l == 0)
 //@   ensures [conn-id-lengths] implies(result0 != nil, result0.OriginalDestConnectionID.l <= 20 && result0.RetrySrcConnectionID.l <= 20)
+//@   ensures [retry-token-hands-back-the-connection-ids-of-its-body] implies(result0 != nil && result0.IsRetryToken, t != nil && int(result0.OriginalDestConnectionID.l) == len(t.OriginalDestConnectionID) && int(result0.RetrySrcConnectionID.l) == len(t.RetrySrcConnectionID) && forall(k, 0, len(t.OriginalDestConnectionID), result0.OriginalDestConnectionID.b[k] == t.OriginalDestConnectionID[k]) && forall(k, 0, len(t.RetrySrcConnectionID), result0.RetrySrcConnectionID.b[k] == t.RetrySrcConnectionID[k]))
+//@   ensures [address-and-kind-from-the-body] implies(result0 != nil, t != nil && result0.IsRetryToken == t.IsRetryToken && samearray(result0.encodedRemoteAddr, t.RemoteAddr) && len(result0.encodedRemoteAddr) == len(t.RemoteAddr))
 //@   modifies nothing
 
 //@ func (s *tokenProtector) DecodeToken
